@@ -498,6 +498,63 @@ def _mentions(e, out, neg=False):
         _mentions(e["e"], out, True)
 
 
+def _norm_shape(s):
+    if "x" in s:
+        return "x"
+    if "o" in s:
+        return ["Option", _norm_shape(s["o"])]
+    if "v" in s:
+        return ["Vec", _norm_shape(s["v"])]
+    return ["Tuple"] + [_norm_shape(e) for e in s["t"]]
+
+
+def _parse_sig(t):
+    """token-stream rendering of a return type -> shape term"""
+    if t is None:
+        return None
+    t = t.replace(" ", "")
+    def parse(i):
+        if t.startswith("::pest_typed::re_exported::Option::<", i):
+            inner, j = parse(i + len("::pest_typed::re_exported::Option::<"))
+            assert t[j] == ">", t[j:]
+            return ["Option", inner], j + 1
+        if t.startswith("::pest_typed::re_exported::Vec::<", i):
+            inner, j = parse(i + len("::pest_typed::re_exported::Vec::<"))
+            assert t[j] == ">", t[j:]
+            return ["Vec", inner], j + 1
+        if t[i] == "(":
+            items = []
+            j = i + 1
+            while t[j] != ")":
+                it, j = parse(j)
+                items.append(it)
+                if t[j] == ",":
+                    j += 1
+            return ["Tuple"] + items, j + 1
+        if t[i] == "&":
+            # &'ssuper::super::rules::r#x::<'i,INHERITED>  : skip to the end of the path (balanced <>)
+            j = i
+            depth = 0
+            while j < len(t):
+                ch = t[j]
+                if ch == "<":
+                    depth += 1
+                elif ch == ">":
+                    if depth == 0:
+                        break
+                    depth -= 1
+                elif ch in ",)" and depth == 0:
+                    break
+                j += 1
+            return "x", j
+        raise ValueError(t[i:])
+    try:
+        sh, j = parse(0)
+        return sh
+    except Exception:
+        return ["unparsed", t]
+
+
 def check_C16(tier, seed):
     import props, families
     ctx = Ctx("C16", tier, seed)
@@ -556,6 +613,30 @@ pub fn custom_%s(job: &hcommon::Job) -> serde_json::Value {
 """ % (rn, rn, body)
                 g["custom"][rn] = "custom_%s" % rn
             g["extra"] = extra
+        # GetterShape.tla: expected Option / Vec / tuple wrapping of every getter, against the emitted signature
+        for c in corpus:
+            c["names"] = [n for n in c["rule_names"]] + ["EOI"]
+        json.dump({"grammars": corpus}, open(path, "w"))
+        srecs, sst = peg.run_tlc(path, "c16" + vtag, cfg="GetterShape.cfg", module="GetterShape.tla", ast=ast)
+        if not sst["ok"]:
+            raise ToolError("TLC failed on GetterShape:\n" + sst.get("tail", "")[-3000:])
+        ctx.add_stats(sst)
+        sigs = {g["id"]: gobs[i].get("getters", {}) for i, g in enumerate(grams)}
+        kind_of = {c["id"]: c["kinds"] for c in corpus}
+        for sr in srecs:
+            if not sr["rule"].startswith("r") or kind_of[sr["g"]][sr["rule"]] == "atomic":
+                continue
+            sig = dict((n, t) for n, t in sigs[sr["g"]].get(sr["rule"], []))
+            exp = sr["shape"]
+            if "none" in exp:
+                continue
+            got = _parse_sig(sig.get(sr["x"]))
+            ctx.cov["evaluations"] += 1
+            ctx.notes["getter_signatures_compared"] = ctx.notes.get("getter_signatures_compared", 0) + 1
+            if got != _norm_shape(exp):
+                gtext = next(g["text"] for g in grams if g["id"] == sr["g"])
+                ctx.violation("return type of %s.%s() (%s): expected shape %s, emitted %s" % (sr["rule"], sr["x"], "optimizer off" if ast == "src" else "default", _norm_shape(exp), sig.get(sr["x"])),
+                              {"kind": "generator", "grammar": gtext, "opts": opts, "rule": sr["rule"], "getter": sr["x"], "expected": _norm_shape(exp), "observed": sig.get(sr["x"])})
         rows = props.run_generic(ctx, "c16" + vtag, grams, "sX", lambda rec, job, obs, gram: [], ast=ast, emit="dv", with_pest=False)
         for rec, job, obs, gram in rows:
             if not rec["ok"] or "x" not in obs:
